@@ -177,7 +177,10 @@ def main(argv):
         print(("REPRODUCED " if ok else "NOT-REPRODUCED ") + json.dumps(detail, default=np_default)[:2000])
         return 1 if ok else 0
 
-    # 2. translators (model regenerated from source), then build of this property's modules
+    # 2. translators (model regenerated from source), then build of this property's modules; one critical section on the Lake project
+    #    up to the audit (a concurrent check of another tree must not swap generated tables in between)
+    lake_lock = leanbuild.Lock()
+    lake_lock.__enter__()
     for tr in getattr(mod, "TRANSLATORS", []):
         try:
             tr(ctx)
@@ -225,6 +228,7 @@ def main(argv):
     hits = leanbuild.forbidden_words()
     if hits:
         ctx.break_("forbidden-words", json.dumps(hits[:10]))
+    lake_lock.__exit__()
     checker_cmd = "cd lean && lake build %s && lake env lean <#print axioms of %d theorems>" % (" ".join(modules), len(obligations))
 
     # 4./5. correspondence + executable property oracle on the implementation
